@@ -39,6 +39,7 @@ CBMC_BASE = ['--no-standard-checks', '--bounds-check', '--pointer-check', '--unw
              '--unwindset', 'vf_havoc_c.0:1100,vf_libc_bcmp.0:130,vf_libc_memcmp.0:130', '--sat-solver', 'cadical', '--object-bits', '10', '--json-ui']
 SLICE = ['--slice-formula']   # cone-of-influence reduction; not used for trace runs (the replay log must stay in the formula)
 JOBS = int(os.environ.get('VERIF_JOBS', '16'))
+RUN_TAG = 'run'   # set by the driver to the property id
 
 
 class Inconclusive(Exception):
@@ -70,7 +71,8 @@ def build_ir(profile, features, lto=False, opt=None):
     if key in _ir_cache:
         return _ir_cache[key]
     t0 = time.time()
-    target = 'L-%s%s%s' % (profile, '-lto' if lto else '', '-o%s' % opt if opt else '')
+    # one target dir per property check (RUN_TAG): concurrent checks never touch each other's .ll files
+    target = 'L-%s%s%s-%s' % (profile, '-lto' if lto else '', '-o%s' % opt if opt else '', RUN_TAG)
     prof = ['--release'] if profile == 'rel' else ['--profile', 'dbg']
     pdir = 'release' if profile == 'rel' else 'dbg'
     feats = ','.join(['cbmc'] + sorted(features) + (['lto_std'] if lto else []))
@@ -256,7 +258,8 @@ class Ob:
         return tuple(sorted([self.group] + (['deep'] if self.deep else []) + list(self.feats)))
 
     def cdir(self):
-        d = os.path.join(BUILD, 'c', self.profile + ('-lto' if self.lto else '') + ''.join('-' + f for f in self.feats))
+        # per property (RUN_TAG): two checks running at the same time never write the same C file
+        d = os.path.join(BUILD, 'c', RUN_TAG, self.profile + ('-lto' if self.lto else '') + ''.join('-' + f for f in self.feats))
         os.makedirs(d, exist_ok=True)
         return d
 
